@@ -35,9 +35,9 @@ type VerifRead struct {
 // VerifDump is the internal state of a RawNode.
 type VerifDump struct {
 	ID, Term, Vote, Lead, LeadTransferee, PendingConfIndex, UncommittedSize uint64
-	State                                                               StateType
-	IsLearner                                                           bool
-	ElectionElapsed, HeartbeatElapsed, RandomizedElectionTimeout         int
+	State                                                                   StateType
+	IsLearner                                                               bool
+	ElectionElapsed, HeartbeatElapsed, RandomizedElectionTimeout            int
 
 	Committed, Applying, Applied, ApplyingEntsSize, MaxApplyingEntsSize uint64
 	ApplyingEntsPaused                                                  bool
@@ -46,12 +46,12 @@ type VerifDump struct {
 	UnstableSnapshot                                                    *pb.Snapshot
 	UnstableSnapshotInProgress                                          bool
 
-	Config   tracker.Config
+	Config tracker.Config
 	// limits new Inflights are created with
 	TrackerMaxInflight      int
 	TrackerMaxInflightBytes uint64
 	Progress                map[uint64]VerifProgress
-	Votes    map[uint64]bool
+	Votes                   map[uint64]bool
 
 	ROAcks        map[uint64]uint64
 	ROUnconfirmed []VerifRead
